@@ -14,7 +14,9 @@ NoOrder == <<"a">>
 VARIABLES l, fails, sp, broken
 ToSet(seq) == {seq[i] : i \in 1..Len(seq)}
 Has(e, k) == k \in DOMAIN e
-Empty == [heap |-> <<>>, flow |-> [x \in {F, T} |-> {}], fhigh |-> [x \in {F, T} |-> {}], hs |-> <<>>, lb |-> <<>>, ord |-> <<>>]
+\* ho: the ordering each handle was built under.  The unique table is GLOBAL: OBDDs over different orderings live in
+\* one heap and share structurally identical nodes, so histories may interleave several orderings.
+Empty == [heap |-> <<>>, flow |-> [x \in {F, T} |-> {}], fhigh |-> [x \in {F, T} |-> {}], hs |-> <<>>, lb |-> <<>>, ord |-> <<>>, ho |-> <<>>]
 \* the operators of BDD are written over the constant Order; traces carry their own ordering, so the
 \* trace spec re-instantiates the recursion over s.ord
 PosO(ord, v) == CHOOSE i \in 1..Len(ord) : ord[i] = v
@@ -36,32 +38,42 @@ TreeJ(hp, n) == IF IsTerm(n) THEN <<"t", n>> ELSE <<hp[n].var, TreeJ(hp, hp[n].l
 RECURSIVE EvalH(_, _, _)
 EvalH(hp, n, asg) == IF IsTerm(n) THEN n = T ELSE EvalH(hp, IF hp[n].var \in asg THEN hp[n].hi ELSE hp[n].lo, asg)
 TtH(hp, ord, n) == {asg \in SUBSET ToSet(ord) : EvalH(hp, n, asg)}
+PutH(hs, h, id) == [x \in DOMAIN hs \cup {h} |-> IF x = h THEN id ELSE hs[x]]
 StoreOf(s) == [heap |-> s.heap, flow |-> s.flow, fhigh |-> s.fhigh]
 RootsOf(hs, lb) == {hs[h] : h \in DOMAIN hs} \cup {lb[h] : h \in DOMAIN lb}
 WithSt(s, st, hs, lb) == LET sw == Sweep(st, RootsOf(hs, lb)) IN
-                         [heap |-> sw.heap, flow |-> sw.flow, fhigh |-> sw.fhigh, hs |-> hs, lb |-> lb, ord |-> s.ord]
-PutH(hs, h, id) == [x \in DOMAIN hs \cup {h} |-> IF x = h THEN id ELSE hs[x]]
+                         [heap |-> sw.heap, flow |-> sw.flow, fhigh |-> sw.fhigh, hs |-> hs, lb |-> lb, ord |-> s.ord, ho |-> s.ho]
+OrdOf(e, s) == IF Has(e, "order") THEN e.order ELSE s.ord
+SetHo(s, h, o) == [s EXCEPT !.ho = PutH(@, h, o)]
+MixedOrders(e, s) == e.op = "apply" /\ s.ho[e.h1] # s.ho[e.h2]
 \* spec successor for one recorded op
 Step(e, s) ==
   CASE e.op = "start" -> [Empty EXCEPT !.ord = e.order]
-    [] e.op = "var" -> LET r == Mk(StoreOf(s), e.v, F, T) IN WithSt(s, r.st, PutH(s.hs, e.h, r.id), s.lb)
-    [] e.op = "const" -> WithSt(s, StoreOf(s), PutH(s.hs, e.h, IF e.b THEN T ELSE F), s.lb)
-    [] e.op = "apply" -> LET r == AppO(s.ord, StoreOf(s), e.bop, s.hs[e.h1], s.hs[e.h2]) IN WithSt(s, r.st, PutH(s.hs, e.h, r.id), s.lb)
-    [] e.op = "not" -> LET r == Inv(StoreOf(s), s.hs[e.h1]) IN WithSt(s, r.st, PutH(s.hs, e.h, r.id), s.lb)
-    [] e.op = "restrict" -> LET r == Res(StoreOf(s), s.hs[e.h1], e.v, e.b) IN WithSt(s, r.st, PutH(s.hs, e.h, r.id), s.lb)
+    [] e.op = "var" -> LET r == Mk(StoreOf(s), e.v, F, T) IN SetHo(WithSt(s, r.st, PutH(s.hs, e.h, r.id), s.lb), e.h, OrdOf(e, s))
+    [] e.op = "const" -> SetHo(WithSt(s, StoreOf(s), PutH(s.hs, e.h, IF e.b THEN T ELSE F), s.lb), e.h, OrdOf(e, s))
+    [] e.op = "apply" -> IF MixedOrders(e, s) THEN s       \* must raise RuntimeError and change nothing
+                         ELSE LET r == AppO(s.ho[e.h1], StoreOf(s), e.bop, s.hs[e.h1], s.hs[e.h2]) IN
+                              SetHo(WithSt(s, r.st, PutH(s.hs, e.h, r.id), s.lb), e.h, s.ho[e.h1])
+    [] e.op = "not" -> LET r == Inv(StoreOf(s), s.hs[e.h1]) IN SetHo(WithSt(s, r.st, PutH(s.hs, e.h, r.id), s.lb), e.h, s.ho[e.h1])
+    [] e.op = "restrict" -> LET r == Res(StoreOf(s), s.hs[e.h1], e.v, e.b) IN SetHo(WithSt(s, r.st, PutH(s.hs, e.h, r.id), s.lb), e.h, s.ho[e.h1])
     [] e.op = "park" -> [s EXCEPT !.hs = [x \in DOMAIN s.hs \ {e.h} |-> s.hs[x]], !.lb = PutH(s.lb, e.h, s.hs[e.h])]
     [] e.op = "release" -> WithSt(s, StoreOf(s), [x \in DOMAIN s.hs \ {e.h} |-> s.hs[x]], [x \in DOMAIN s.lb \ {e.h} |-> s.lb[x]])
     [] e.op = "gc" -> s
 AllOf(s) == [h \in DOMAIN s.hs \cup DOMAIN s.lb |-> IF h \in DOMAIN s.hs THEN s.hs[h] ELSE s.lb[h]]
 Judge(e, s2) ==
   IF e.op = "start" THEN "ok"
+  ELSE IF Has(e, "mixed") /\ e.mixed THEN
+       (IF Has(e.out, "exc") /\ e.out.exc = "RuntimeError" THEN "ok"
+        ELSE IF Has(e.out, "exc") THEN "violation:wrong-exception " \o e.out.exc ELSE "violation:combined-different-orderings")
   ELSE IF Has(e.out, "exc") THEN "violation:exception " \o e.out.exc
   ELSE LET all == AllOf(s2) IN
     IF DOMAIN e.proj.roots # DOMAIN all THEN "MACHINERY:handles"
     ELSE IF \E h \in DOMAIN all : e.proj.roots[h] # TreeJ(s2.heap, all[h]) THEN "violation:structure (function, reducedness or ordering of a result)"
     ELSE IF e.proj.dups # 0 THEN "violation:duplicate-triple (two live nodes with one (var, low, high))"
     ELSE IF \E p \in ToSet(e.proj.same) :
-              LET samefn == TtH(s2.heap, s2.ord, all[p[1]]) = TtH(s2.heap, s2.ord, all[p[2]]) IN p[3] # samefn \/ p[4] # samefn
+              LET o1 == s2.ho[p[1]]  o2 == s2.ho[p[2]] IN
+              IF o1 = o2 THEN LET samefn == TtH(s2.heap, o1, all[p[1]]) = TtH(s2.heap, o1, all[p[2]]) IN p[3] # samefn \/ p[4] # samefn
+              ELSE p[3] \/ (p[4] # (all[p[1]] = all[p[2]]))     \* different orderings: never ==; same root iff same structure
          THEN "violation:canonicity (== / identical root iff same function)"
     ELSE IF e.proj.live # Cardinality(DOMAIN s2.heap) THEN "violation:live-node-count (nodes not released, or released too early)"
     ELSE "ok"
